@@ -4,7 +4,7 @@ SHELL := /bin/bash
 COQ_TIMEOUT ?= 1800
 J ?= 12
 
-.PHONY: setup all gen coq extract driver clean prectable onlinegen offlinegen offlinegen-check offlinegen-mutants denseonlinegen denseonlinegen-check denseonlinegen-mutants coqchk static
+.PHONY: setup all gen coq extract driver clean prectable onlinegen offlinegen offlinegen-check offlinegen-mutants denseonlinegen denseonlinegen-check denseonlinegen-mutants pastifiergen pastifiergen-check pastifiergen-mutants coqchk static
 
 # `make all` never stops at the first failure: a source file of nickovic/rtamt that a translator refuses, or a proof that no longer
 # checks against the regenerated text, must break the obligations of the properties that depend on it and of no other property.
@@ -18,7 +18,7 @@ all:
 	@($(MAKE) coq > build/status/coq.log 2>&1 && echo ok > build/status/coq) || (tail -40 build/status/coq.log > build/status/coq; true)
 	@($(MAKE) driver > build/status/driver.log 2>&1 && echo ok > build/status/driver) || (tail -40 build/status/driver.log > build/status/driver; true)
 	@grep -v "^COQC\|^COQDEP\|Closed under the global context\|^make" build/status/coq.log | tail -5; true
-	@for f in prectable offlinegen onlinegen denseonlinegen coq driver; do if [ "`head -c 2 build/status/$$f`" != "ok" ]; then echo "make all: step $$f failed (build/status/$$f)"; fail=1; fi; done; test -z "$$fail"
+	@for f in prectable offlinegen onlinegen denseonlinegen pastifiergen coq driver; do if [ "`head -c 2 build/status/$$f`" != "ok" ]; then echo "make all: step $$f failed (build/status/$$f)"; fail=1; fi; done; test -z "$$fail"
 
 coq/Makefile.coq: coq/_CoqProject
 	cd coq && coq_makefile -f _CoqProject -o Makefile.coq
@@ -31,6 +31,7 @@ gen:
 	@($(MAKE) -s offlinegen > build/status/offlinegen.log 2>&1 && echo ok > build/status/offlinegen) || (tail -20 build/status/offlinegen.log > build/status/offlinegen; true)
 	@($(MAKE) -s onlinegen > build/status/onlinegen.log 2>&1 && echo ok > build/status/onlinegen) || (tail -20 build/status/onlinegen.log > build/status/onlinegen; true)
 	@($(MAKE) -s denseonlinegen > build/status/denseonlinegen.log 2>&1 && echo ok > build/status/denseonlinegen) || (tail -20 build/status/denseonlinegen.log > build/status/denseonlinegen; true)
+	@($(MAKE) -s pastifiergen > build/status/pastifiergen.log 2>&1 && echo ok > build/status/pastifiergen) || (tail -20 build/status/pastifiergen.log > build/status/pastifiergen; true)
 
 # the precedence table of the parser model is regenerated from rtamt's generated ANTLR parser on every build
 prectable:
@@ -79,6 +80,23 @@ denseonlinegen-check: coq
 # 8 semantic mutations + 3 harmless rewrites of scratch copies of the class files: translator verdict / first lemma that fails
 denseonlinegen-mutants: coq
 	python3 tools/denseonlinegen_mutants.py
+
+# the pastifiers and the horizon visitors (rtamt/pastifier/{ltl,stl}/*.py) are re-translated on every build (fail-closed, as above: C03 is then
+# reported as no longer shown); PastifyGenCorrect.v re-proves, against the new text, that the generated functions compute the hand model
+# Pastify.v through the erasure of NodeName.v
+pastifiergen:
+	@mkdir -p build
+	python3 tools/py2coq_pastifier.py $(REPO) build/PastifyGen.v.new
+	@cmp -s build/PastifyGen.v.new coq/theories/PastifyGen.v || cp build/PastifyGen.v.new coq/theories/PastifyGen.v
+
+# differential check of the generated functions against the Python classes on random specifications (not part of `all`: ~4 min of vm_compute)
+pastifiergen-check: coq
+	PYTHONDONTWRITEBYTECODE=1 PYTHONPATH=$(REPO) /venv/bin/python harness/pastifiergen_check.py build/PastifyGenCases.v
+	cd coq && timeout 1800 coqc -Q theories RV ../build/PastifyGenCases.v
+
+# semantic mutations + harmless rewrites of scratch copies of the four source files: translator verdict / first lemma that fails
+pastifiergen-mutants: coq
+	python3 tools/pastifiergen_mutants.py
 
 coq: coq/Makefile.coq
 	cd coq && timeout $(COQ_TIMEOUT) $(MAKE) -k -f Makefile.coq -j$(J)
